@@ -41,9 +41,9 @@ def vcore_build(ctx):
     ctx["cargo_build"]("vcore")
 
 
-def vcore_check(sub, level="exploration", extra_steps=None):
+def vcore_check(sub, level="exploration", extra_steps=None, extra_args=None):
     def steps(ctx):
-        res = [run_monitor(ctx, _bin(ctx, "vcore"), sub)]
+        res = [run_monitor(ctx, _bin(ctx, "vcore"), sub, extra=extra_args)]
         for s in extra_steps or []:
             r = s(ctx)
             res += r if isinstance(r, list) else [r]
@@ -816,7 +816,7 @@ CHECKS = {
     "C10": vcore_check("c10"),
     "C13": vcore_check("c13"),
     "C14": {"build": c14_build, "steps": c14_steps, "replay": c14_replay, "level": "exploration"},
-    "C15": dict(vcore_check("c15", extra_steps=[c15_cachegrind]), replay=c15_replay),
+    "C15": dict(vcore_check("c15", extra_steps=[c15_cachegrind], extra_args=["--logged"]), replay=c15_replay),
     "C16": vcore_check("c16"),
     "C17": vcore_check("c17"),
     "C19": vcore_check("c19", extra_steps=[with_sanitizers("c19")]),
